@@ -1,7 +1,216 @@
-/- C03 — statements under construction -/
-import AgpTpf.Model.Fasta
+/-
+  C03 — FASTA output is exactly the output AGP applied to the input FASTA.
+
+  Model: `streamAssembly` / `streamScaffold` / `streamRow` / `writeChunk` / `sequenceBytes` (Model/Fasta.lean) for
+  `FastaStream.write_assembly`, `write_scaffold`, the chunk iterators and `FastaIndex.sequence_bytes`
+  (fasta/stream.py, fasta/index.py).
+
+  Proved here, for EVERY file, index, assembly, buffer size `bs ≥ 1` and line length `w ≥ 1`:
+  * `sequence_bytes_slice` — random access returns exactly `residues[start-1 : end]` of a laid-out record;
+  * `writer_*` — the `while True: chunk.read(want)` loop is a byte-wise line wrapper; it composes over chunks, so the
+    bytes written do not depend on how the sequence was cut into chunks;
+  * `wrap_lines` — the wrapped body is the body cut into lines of exactly `w` bytes (last one 1..w), each ended by LF:
+    no empty line, no over-long line;
+  * `fasta_record_is_agp_applied` / `fasta_file_is_agp_applied` — every record written equals `>name\n` + the wrapped
+    concatenation, in row order, of the input intervals named by the rows (reverse-complemented for minus rows) with
+    every gap rendered as that many `N`; records come in scaffold order, one per scaffold; the calls never fail;
+  * `record_length_eq_agp_length` — the record's sequence length is the scaffold length the AGP writer reports
+    (`Scaffold.length` = Σ row lengths), for non-negative gap lengths.
+  Not proved here (outside the files of this task): uniqueness of record names (a property of the assembly's scaffold
+  names, C05/C06), the text of the AGP file written beside the FASTA (Model/Outputs.lean), and the CLI end to end.
+
+  Helper lemmas: AgpTpf/Proofs/C03Chunks.lean, C03Wrap.lean, C03Seq.lean, C03Stream.lean; fixtures C03Example.lean.
+-/
+import AgpTpf.Proofs.C03Stream
+import AgpTpf.Proofs.C03Example
 namespace AgpTpf.C03
-open AgpTpf
-theorem reverseComplement_length (s : Bytes) : (reverseComplement s).length = s.length := by
-  simp [reverseComplement]
+open AgpTpf AgpTpf.ChunkProofs AgpTpf.WrapProofs AgpTpf.SeqProofs AgpTpf.StreamProofs AgpTpf.StreamExample
+
+/-! ### random access: `sequence_bytes`
+
+  `LaidOut file off R M res` (Proofs/C03Seq.lean): residue `L * R + c` (column `c < R` of line `L`) of the record is
+  the file byte at `off + M * L + c` — `R` residues per line, lines `M` bytes apart. -/
+
+/-- `sequence_bytes(info, start, end)` (1-based, closed; here `start = s + 1`, `end = e`) on a laid-out record
+    succeeds and returns exactly `res[s:e]`; every single `read` it issues asks for at most `min(rpl, e - s)` bytes. -/
+theorem sequence_bytes_slice {file res : Bytes} {off R M : Nat} (info : FastaInfo)
+    (hoff : info.fileOffset = off) (hrpl : info.rpl = R) (hmll : info.mll = M)
+    (hR : 1 ≤ R) (hM : R ≤ M) (h : LaidOut file off R M res)
+    (s e : Nat) (hs : s < e) (he : e ≤ res.length) :
+    ∃ rl, sequenceBytes file info ((s : Int) + 1) (e : Int) = .ok rl ∧ rl.data = (res.drop s).take (e - s) ∧
+      ∀ r ∈ rl.reads, 0 ≤ r ∧ r ≤ (R : Int) ∧ r ≤ ((e - s : Nat) : Int) :=
+  sequenceBytes_slice info hoff hrpl hmll hR hM h s e hs he
+
+/-- the layout hypothesis holds for every record rendered the way FASTA writers do: after any prefix `pre` (header
+    line, earlier records), lines of `R` residues each followed by a terminator `term` (LF, CR LF, …), the last line
+    possibly shorter; anything may follow. -/
+theorem rendered_record_laidOut (R : Nat) (hR : 1 ≤ R) (pre term post res : Bytes) :
+    LaidOut (pre ++ (renderBody R term res ++ post)) pre.length R (R + term.length) res :=
+  laidOut_render R hR pre term post res
+
+example : LaidOut exFile 3 4 5 exRes := exLaidOut
+example : (sequenceBytes exFile exInfo 3 10).toOption.map (·.data) = some [67, 67, 78, 78, 71, 84, 84, 65] := by
+  decide +kernel
+
+/-! ### the line wrapper -/
+
+/-- The `while True: seq = chunk.read(want)` loop of `write_scaffold` for one chunk (`writeChunk`, with the fuel
+    `streamRow` gives it) is the byte-at-a-time wrapper `wrapGo`: a newline is written exactly when a line reaches
+    `w` bytes. Invariant `1 ≤ want ≤ w`. -/
+theorem writer_is_wrapper (w want : Int) (chunk : Bytes) (h1 : 1 ≤ want) (h2 : want ≤ w) :
+    writeChunk w (chunk.length + 1) want chunk = wrapGo w want chunk :=
+  writeChunk_eq_wrapGo w _ want chunk h1 h2 (Nat.le_refl _)
+
+/-- the `want` left after a chunk: the column advances by the chunk length modulo `w` -/
+theorem writer_want (w want : Int) (chunk : Bytes) (hw : 1 ≤ w) (h1 : 1 ≤ want) (h2 : want ≤ w) :
+    (writeChunk w (chunk.length + 1) want chunk).2 = w - ((w - want + chunk.length) % w) := by
+  rw [writer_is_wrapper w want chunk h1 h2, wrapGo_want w hw chunk want h1 h2]
+
+theorem writer_want_range (w want : Int) (chunk : Bytes) (hw : 1 ≤ w) (h1 : 1 ≤ want) (h2 : want ≤ w) :
+    1 ≤ (writeChunk w (chunk.length + 1) want chunk).2 ∧ (writeChunk w (chunk.length + 1) want chunk).2 ≤ w := by
+  rw [writer_is_wrapper w want chunk h1 h2]
+  exact wrapGo_want_range w hw chunk want h1 h2
+
+/-- writing `c₁` and then `c₂` (from the `want` the first call left) writes the same bytes and leaves the same
+    `want` as writing `c₁ ++ c₂` in one go -/
+theorem writer_append (w want : Int) (c₁ c₂ : Bytes) (hw : 1 ≤ w) (h1 : 1 ≤ want) (h2 : want ≤ w) :
+    writeChunk w ((c₁ ++ c₂).length + 1) want (c₁ ++ c₂)
+      = ((writeChunk w (c₁.length + 1) want c₁).1
+            ++ (writeChunk w (c₂.length + 1) (writeChunk w (c₁.length + 1) want c₁).2 c₂).1,
+         (writeChunk w (c₂.length + 1) (writeChunk w (c₁.length + 1) want c₁).2 c₂).2) := by
+  have hr := writer_want_range w want c₁ hw h1 h2
+  rw [writer_is_wrapper w want (c₁ ++ c₂) h1 h2, writer_is_wrapper w _ c₂ hr.1 hr.2,
+    writer_is_wrapper w want c₁ h1 h2, wrapGo_append]
+
+/-- buffer-size independence of the writer (`writeAll w want cs`, Proofs/C03Wrap.lean: `writeChunk` applied to the
+    chunks `cs` one after the other, as `write_scaffold` does): writing chunks `c₁,…,c_n` one after the other gives the same bytes (and
+    the same final state) as writing their concatenation at once … -/
+theorem writer_chunks_eq_concat (w : Int) (hw : 1 ≤ w) : ∀ (cs : List Bytes) (want : Int), 1 ≤ want → want ≤ w →
+    writeAll w want cs = writeChunk w (cs.flatten.length + 1) want cs.flatten
+  | [], want, h1, h2 => by
+    have := writer_is_wrapper w want [] h1 h2
+    simp only [List.length_nil, Nat.zero_add] at this
+    simp [writeAll, this, wrapGo]
+  | c :: cs, want, h1, h2 => by
+    have hr := writer_want_range w want c hw h1 h2
+    rw [List.flatten_cons, writer_append w want c cs.flatten hw h1 h2, writeAll,
+      writer_chunks_eq_concat w hw cs _ hr.1 hr.2]
+
+/-- … hence any two ways of cutting the same bytes into chunks are written identically -/
+theorem writer_chunking_irrelevant (w : Int) (hw : 1 ≤ w) (cs ds : List Bytes) (h : cs.flatten = ds.flatten)
+    (want : Int) (h1 : 1 ≤ want) (h2 : want ≤ w) : writeAll w want cs = writeAll w want ds := by
+  rw [writer_chunks_eq_concat w hw cs want h1 h2, writer_chunks_eq_concat w hw ds want h1 h2, h]
+
+example : writeAll 4 4 [[1, 2, 3], [4, 5, 6], [7]] = ([1, 2, 3, 4, 10, 5, 6, 7], 1) := by decide
+example : writeAll 4 4 [[1], [2, 3, 4, 5, 6, 7], []] = ([1, 2, 3, 4, 10, 5, 6, 7], 1) := by decide
+example : writeChunk 4 8 4 [1, 2, 3, 4, 5, 6, 7] = ([1, 2, 3, 4, 10, 5, 6, 7], 1) := by decide
+example : writeChunk 4 9 4 [1, 2, 3, 4, 5, 6, 7, 8] = ([1, 2, 3, 4, 10, 5, 6, 7, 8, 10], 4) := by decide
+
+/-- What `write_scaffold` writes after the header line for a body `s`: the wrapper from a fresh line plus the final
+    newline when the last line is incomplete (`wrapBody`).  `linesOf w s`: `s` cut into consecutive slices of `w`
+    bytes, the last one 1..w bytes, none for an empty body (Proofs/C03Wrap.lean). -/
+theorem wrap_lines (w : Nat) (hw : 1 ≤ w) (s : Bytes) :
+    -- the model's writer, spelled out
+    (if (writeChunk (w : Int) (s.length + 1) w s).2 ≠ (w : Int) then (writeChunk (w : Int) (s.length + 1) w s).1 ++ [10]
+      else (writeChunk (w : Int) (s.length + 1) w s).1) = wrapBody (w : Int) s ∧
+    -- is every line followed by LF
+    wrapBody (w : Int) s = ((linesOf w s).map (· ++ [10])).flatten ∧
+    -- the lines are the body
+    (linesOf w s).flatten = s ∧
+    -- no empty line, no over-long line
+    (∀ l ∈ linesOf w s, 1 ≤ l.length ∧ l.length ≤ w) ∧
+    -- all but the last exactly `w`
+    (∀ l ∈ (linesOf w s).dropLast, l.length = w) ∧
+    -- ⌈|s| / w⌉ lines
+    (linesOf w s).length = (s.length + w - 1) / w := by
+  refine ⟨?_, wrapBody_eq_lines w hw s, linesOf_flatten w s, linesOf_len w hw s, linesOf_full w hw s,
+    linesOf_count w hw s⟩
+  rw [writer_is_wrapper (w : Int) w s (by omega) (by omega)]
+  rfl
+
+/-- for a body without LF bytes, splitting the written text at LF (the model's binary line reader `bLines`) gives
+    back exactly those lines -/
+theorem wrap_lines_split (w : Nat) (hw : 1 ≤ w) (s : Bytes) (h10 : ∀ b ∈ s, b ≠ 10) :
+    bLines (wrapBody (w : Int) s) = (linesOf w s).map (· ++ [10]) := by
+  rw [wrapBody_eq_lines w hw s]
+  exact bLines_lines _ (fun l hl b hb => h10 b (mem_linesOf w s l hl b hb))
+
+example : wrapBody 4 [65, 67, 71, 84, 65, 67, 71] = [65, 67, 71, 84, 10, 65, 67, 71, 10] := by decide
+example : wrapBody 4 [65, 67, 71, 84, 65, 67, 71, 84] = [65, 67, 71, 84, 10, 65, 67, 71, 84, 10] := by decide
+example : wrapBody 4 [] = [] := by decide
+
+/-! ### records and files
+
+  `rowsBody resOf rows` (Proofs/C03Stream.lean) is "the AGP applied to the FASTA": for each row in order, a fragment
+  row contributes `slice (resOf name) start end` = residues `start..end` (1-based, closed) of the input record —
+  `reverseComplement` of it iff strand = -1 —, a gap row contributes `gap.length` copies of the gap character `N`.
+  `RowOK file idx resOf row`: a fragment row names an index entry whose offsets lay `resOf name` out in `file`
+  and `1 ≤ start ≤ end ≤ |resOf name|`; a gap row is always OK. -/
+
+theorem gap_character_is_N : gapByte = 78 := by decide
+
+/-- every record: header `>name\n`, then the AGP applied to the FASTA, wrapped at `w`. Never fails. -/
+theorem fasta_record_is_agp_applied {bs w : Int} (hbs : 1 ≤ bs) (hw : 1 ≤ w) (file : Bytes)
+    (idx : List (Str × FastaInfo)) (resOf : Str → Bytes) (sc : Scaffold)
+    (hok : ∀ r ∈ sc.rows, RowOK file idx resOf r) :
+    ∃ lg, streamScaffold file idx bs w sc = .ok lg ∧
+      lg.out = [62] ++ strToBytes sc.name ++ [10]
+                ++ ((linesOf w.toNat (rowsBody resOf sc.rows)).map (· ++ [10])).flatten := by
+  obtain ⟨lg, h1, h2, -, -⟩ := scaffold_spec hbs hw file idx resOf sc hok
+  refine ⟨lg, h1, ?_⟩
+  rw [h2, recordBytes]
+  have : w = ((w.toNat : Nat) : Int) := by omega
+  rw [this, wrapBody_eq_lines w.toNat (by omega), Int.toNat_natCast]
+
+/-- the whole file: the records of the scaffolds, in scaffold order, one per scaffold, nothing else. Never fails. -/
+theorem fasta_file_is_agp_applied {bs w : Int} (hbs : 1 ≤ bs) (hw : 1 ≤ w) (file : Bytes)
+    (idx : List (Str × FastaInfo)) (resOf : Str → Bytes) (scs : List Scaffold)
+    (hok : ∀ sc ∈ scs, ∀ r ∈ sc.rows, RowOK file idx resOf r) :
+    ∃ lg, streamAssembly file idx bs w scs = .ok lg ∧
+      lg.out = (scs.map (fun sc => recordBytes w sc.name (rowsBody resOf sc.rows))).flatten := by
+  obtain ⟨lg, h1, h2, -, -⟩ := assembly_spec hbs hw file idx resOf scs { want := w } hok (by simp) (by simp)
+  exact ⟨lg, h1, by simpa using h2⟩
+
+theorem recordBytes_eq (w : Int) (name : Str) (body : Bytes) :
+    recordBytes w name body = [62] ++ strToBytes name ++ [10] ++ wrapBody w body := rfl
+
+/-- the sequence length of a record is the AGP object length of its scaffold (Σ row lengths) — for gap rows of
+    non-negative length (a negative gap length would be written as no bytes but counted negatively). -/
+theorem record_length_eq_agp_length (file : Bytes) (idx : List (Str × FastaInfo)) (resOf : Str → Bytes) :
+    ∀ (rows : List Row), (∀ r ∈ rows, RowOK file idx resOf r) → (∀ g, Row.gap g ∈ rows → 0 ≤ g.length) →
+      ((rowsBody resOf rows).length : Int) = rowsLength rows
+  | [], _, _ => by simp [rowsBody, rowsLength, sumInts]
+  | r :: rest, hok, hg => by
+    have ih := record_length_eq_agp_length file idx resOf rest (fun r' h => hok r' (by simp [h]))
+      (fun g h => hg g (by simp [h]))
+    have hr : ((rowBody resOf r).length : Int) = r.length := by
+      cases r with
+      | gap g =>
+        have := hg g (by simp)
+        simp only [rowBody, List.length_replicate, Row.length]; omega
+      | frag f =>
+        obtain ⟨info, -, -, h0, h1, h2⟩ := hok (.frag f) (by simp)
+        have := slice_length (resOf f.name) f.start f.stop h0 h1 h2
+        simp only [rowBody, Row.length, Fragment.length]
+        split
+        · simp only [reverseComplement, List.length_map, List.length_reverse]; omega
+        · omega
+    unfold rowsBody rowsLength at *
+    simp only [List.map_cons, List.flatten_cons, List.length_append, sumInts, Int.natCast_add, ih, hr]
+
+/-! ### non-vacuity: the fixture file, scaffold `x:1-4(+) gap(2) x:6-10(-)`, buffer size 3, line width 4 -/
+
+example : ∀ r ∈ exScaffold.rows, RowOK exFile exIdx exResOf r := exRowsOK
+example : rowsBody exResOf exScaffold.rows = [65, 65, 67, 67, 78, 78, 84, 65, 65, 67, 78] := by decide  -- AACC NN TAACN
+example : (streamScaffold exFile exIdx 3 4 exScaffold).toOption.map (·.out)
+    = some [62, 115, 10, 65, 65, 67, 67, 10, 78, 78, 84, 65, 10, 65, 67, 78, 10] := by decide +kernel
+example : (streamAssembly exFile exIdx 3 4 [exScaffold, exScaffold.reverse]).toOption.map (·.out)
+    = some ([62, 115, 10, 65, 65, 67, 67, 10, 78, 78, 84, 65, 10, 65, 67, 78, 10]
+         ++ [62, 115, 10, 78, 71, 84, 84, 10, 65, 78, 78, 71, 10, 71, 84, 84, 10]) := by decide +kernel
+/-- a fragment outside the indexed sequence makes the real call fail or misread; the hypothesis excludes it -/
+example : ¬ RowOK exFile exIdx exResOf (.frag { name := "x".toList, start := 6, stop := 12, strand := 1 }) := by
+  rintro ⟨info, -, -, -, -, h⟩
+  revert h
+  decide
+
 end AgpTpf.C03
